@@ -58,10 +58,10 @@ struct VECTOR_BLF_EXPORT DistributedObjectMember final : ObjectHeader {
     uint32_t detailType {DetailType::DetailTypeInvalid};
 
     /** @brief length of variable name in bytes */
-    uint32_t pathLength;
+    uint32_t pathLength {};
 
     /** @brief length of variable data in bytes */
-    uint32_t dataLength;
+    uint32_t dataLength {};
 
     /* dynamic */
 
